@@ -24,8 +24,9 @@
 use super::c01::{day_num, gen_date, month_len, yof, MAX_YEAR, MIN_YEAR};
 use super::c13::{dump_parsed, err_kind};
 use crate::ctx::*;
-use chrono::format::{parse_and_remainder, Fixed, Item, Parsed};
-use chrono::{DateTime, Datelike, FixedOffset, NaiveDate, NaiveTime, TimeZone, Timelike};
+use crate::items::encode_items;
+use chrono::format::{parse, parse_and_remainder, Fixed, Item, Parsed};
+use chrono::{DateTime, Datelike, FixedOffset, NaiveDate, NaiveTime, TimeZone, Timelike, Utc};
 
 const WS: [char; 25] = [
     '\t', '\n', '\u{b}', '\u{c}', '\r', ' ', '\u{85}', '\u{a0}', '\u{1680}', '\u{2000}', '\u{2001}', '\u{2002}', '\u{2003}', '\u{2004}',
@@ -46,7 +47,24 @@ fn show_parse(s: &str) -> String {
         || DateTime::parse_from_rfc2822(s),
         |r| match r {
             Ok(dt) => format!("ok {}", show_dt(&dt)),
-            Err(_) => "err".to_string(),
+            Err(e) => format!("err {}", err_kind(&e)),
+        },
+    )
+}
+/// `[Literal("<"), Fixed(RFC2822), Literal(">")]`: the item inside a longer item list
+fn items_in_list() -> [Item<'static>; 3] {
+    [Item::Literal("<"), Item::Fixed(Fixed::RFC2822), Item::Literal(">")]
+}
+/// `parse(&mut Parsed::new(), s, items)?; parsed.to_datetime()` in the form of `show_parse`
+fn show_parse_items(s: &str, items: &[Item<'static>]) -> String {
+    gs(
+        || {
+            let mut p = Parsed::new();
+            parse(&mut p, s, items.iter()).and_then(|_| p.to_datetime())
+        },
+        |r| match r {
+            Ok(dt) => format!("ok {}", show_dt(&dt)),
+            Err(e) => format!("err {}", err_kind(&e)),
         },
     )
 }
@@ -505,6 +523,58 @@ pub fn run(c: &mut Ctx) {
             }
             c.count(if doc.is_some() { "render:item-form year0-9999" } else { "render:item-form year-outside (fmt::Error)" });
         }
+        // the item INSIDE a longer item list (`<` item `>`): model (op `r2.items`) and the property itself
+        if i % 4 == 1 {
+            let via = guard(|| {
+                use std::fmt::Write;
+                let mut s = String::new();
+                write!(s, "{}", dt.format_with_items(items_in_list().iter())).map(|_| s).map_err(|_| ())
+            });
+            c.op(
+                &format!("r2.items {} {}", encode_items(&items_in_list()), args),
+                &match &via {
+                    Ok(Ok(s)) => hex(s.as_bytes()),
+                    Ok(Err(())) => "err".into(),
+                    Err(()) => "panic".into(),
+                },
+            );
+            match (&via, &text) {
+                (Ok(Ok(s)), Ok(t)) if *s == format!("<{}>", t) => {}
+                (Ok(Err(())), Err(())) => {}
+                _ => c.fail("item in a list: `<` RFC2822 `>` is not `<` + to_rfc2822() + `>` / fmt::Error where to_rfc2822 panics", &format!("{args}: {:?} vs {:?}", via, text)),
+            }
+            c.count("render:item-in-list");
+        }
+        // the generic `Tz`: the same instant as `DateTime<Utc>` is written at +0000
+        if i % 16 == 3 {
+            let u = dt.with_timezone(&Utc);
+            let ut = guard(|| u.to_rfc2822());
+            c.op(
+                &format!("r2.write {} {} {} 0", yof(&d), t.num_seconds_from_midnight(), t.nanosecond()),
+                &match &ut {
+                    Ok(s) => hex(s.as_bytes()),
+                    Err(()) => "panic".into(),
+                },
+            );
+            let doc0 = doc_text(day_num(d.year() as i64, d.month() as i64, d.day() as i64), t.num_seconds_from_midnight() as i64, t.nanosecond() >= 1_000_000_000, 0);
+            match (&ut, &doc0) {
+                (Ok(s), Some(w)) if s == w => {}
+                (Err(()), None) => {}
+                _ => c.fail("DateTime<Utc>::to_rfc2822 differs from `Www, D Mon YYYY HH:MM:SS +0000` of the UTC reading", &format!("{:?}: {:?} vs {:?}", utc, ut, doc0)),
+            }
+            if let Ok(s) = &ut {
+                // ... and reads back as the same instant at offset 0
+                let back = gs(|| DateTime::parse_from_rfc2822(s), |r| match r {
+                    Ok(b) => format!("{} {}", b.timestamp() + (b.timestamp_subsec_nanos() >= 1_000_000_000) as i64, b.offset().local_minus_utc()),
+                    Err(e) => format!("err {}", err_kind(&e)),
+                });
+                let want = format!("{} 0", u.timestamp() + (u.timestamp_subsec_nanos() >= 1_000_000_000) as i64);
+                if back != want {
+                    c.fail("DateTime<Utc>::to_rfc2822 does not read back as the same instant at +0000", &format!("{:?}: {:?} -> {} (want {})", utc, s, back, want));
+                }
+            }
+            c.count("render:Utc");
+        }
         let secs = t.num_seconds_from_midnight() as i64;
         let leap = t.nanosecond() >= 1_000_000_000;
         let whole_minute = off % 60 == 0;
@@ -568,6 +638,30 @@ pub fn run(c: &mut Ctx) {
             c.op(&format!("ps.items FRFC2822 {}", hex(g.text.as_bytes())), &got);
             c.count("fields:compared");
         }
+        if i % 8 == 4 {
+            // the item inside a longer item list: `<` text `>` read with [Literal "<", RFC2822, Literal ">"]
+            let wrapped = format!("<{}>", g.text);
+            let enc = encode_items(&items_in_list());
+            let got = gs(
+                || {
+                    let mut p = Parsed::new();
+                    parse_and_remainder(&mut p, &wrapped, items_in_list().iter()).map(|rest| (dump_parsed(&p), rest.len()))
+                },
+                |r| match r {
+                    Ok((d, rest)) => format!("ok {} rest={}", d, rest),
+                    Err(e) => format!("err {}", err_kind(&e)),
+                },
+            );
+            c.op(&format!("ps.items {} {}", enc, hex(wrapped.as_bytes())), &got);
+            let rl = show_parse_items(&wrapped, &items_in_list());
+            c.op(&format!("r2.pitems {} {}", enc, hex(wrapped.as_bytes())), &rl);
+            // the property itself: `>` starts neither a letter nor a comment, so the list reads what the item alone reads
+            let ok_of = |x: &str| x.strip_prefix("ok ").map(|v| v.to_string());
+            if ok_of(&rl) != ok_of(&r) || rl == "panic" {
+                c.fail("item in a list: `<` text `>` with [Literal, RFC2822, Literal] reads differently from parse_from_rfc2822(text)", &format!("{:?}: {} vs {}", g.text, rl, r));
+            }
+            c.count(if rl.starts_with("ok") { "list-read:ok" } else { "list-read:err" });
+        }
         if matches!(g.want, Want::Ok(..)) && pool.len() < 4000 {
             pool.push(g.text.clone());
         }
@@ -577,6 +671,20 @@ pub fn run(c: &mut Ctx) {
     }
 
     // ---- 2b. the end of the representable range: the UTC reading must stay inside it ------------------------
+    // (the specification's `Valid` also asks for a WALL-CLOCK year <= MAX_YEAR: `1 Jan 262143 00:00 +0001` denotes the
+    // representable instant 262142-12-31T23:59Z at a valid offset and is nevertheless rejected — theorem
+    // `wall_year_beyond_max_rejected`; an observation, not a violation: the property speaks of the supported range)
+    {
+        let s = "1 Jan 262143 00:00 +0001";
+        let r = show_parse(s);
+        if !r.starts_with("err") {
+            c.fail("wall-clock year beyond MAX_YEAR was not rejected by value", &format!("{:?} -> {}", s, r));
+        }
+        c.op(&format!("r2.parse {}", hex(s.as_bytes())), &r);
+        let legal = FixedOffset::east_opt(60).unwrap().from_utc_datetime(&NaiveDate::from_ymd_opt(262142, 12, 31).unwrap().and_hms_opt(23, 59, 0).unwrap());
+        c.sample(&format!("{:?} -> {} although {:?} is a legal DateTime<FixedOffset>", s, r, legal.naive_utc()));
+        c.count("range-edge:wall-year-beyond-max");
+    }
     for _ in 0..c.n(400, 4000) {
         let (h, mi) = (c.rng.range(0, 23), c.rng.range(0, 59));
         let (oh, om) = (c.rng.range(0, 23), c.rng.range(0, 59));
@@ -603,6 +711,9 @@ pub fn run(c: &mut Ctx) {
         let base = if c.rng.chance(1, 4) { "Tue, 1 Jul 2003 10:52:37 +0200".to_string() } else { c.rng.pick(&pool).clone() };
         let (m, kind) = mutate(c, &base);
         let r = show_parse(&m);
+        if let Some(k) = r.strip_prefix("err ") {
+            c.count(&format!("mutation err kind: {}", k));
+        }
         c.count(&format!("{} -> {}", kind, r.split(' ').next().unwrap_or("")));
         if r == "panic" {
             c.fail("parse_from_rfc2822 panicked", &format!("{:?}", m));
